@@ -366,6 +366,8 @@ def gen_scenario(seed, force_cfg=None, profile=None, drive=None):
         prof["pBadDst"] = max(prof.get("pBadDst", 0.12), 0.3)
     if r2.random() < 0.15:
         prof["pEmptyMsg"] = 0.15
+    if r2.random() < 0.2:
+        scn["enumNames"] = True
     if r2.random() < 0.3:
         scn["keywordArgs"] = True
     if r2.random() < 0.3:
